@@ -466,8 +466,9 @@ pub fn gen_c08(rng: &mut Rng) -> Value {
             2 => o["sri"] = json!({"val":0,"algo":algo}),
             3 => o["sri"] = json!({"val":0,"algo":algo,"wrong":true}),
             4 => {
+                // a digest of another algorithm (sometimes the same): of this data, or of other data
                 let other = *rng.pick(&ALGOS);
-                o["sri"] = json!({"val":0,"algo":other});
+                o["sri"] = json!({"val": if rng.chance(1, 2) { 0 } else { 1 },"algo":other});
             }
             5 => {
                 // multi-hash containing the correct one plus a weaker-or-equal foreign hash
@@ -630,7 +631,11 @@ pub fn gen_c14(rng: &mut Rng) -> Value {
             }
             _ => {
                 // a digest that names nothing, or the true address of another value (which may be stored and in use)
-                o["sri"] = if rng.chance(1, 2) { json!({"val":vi,"algo":"sha256","wrong":true}) } else { json!({"val":(vi + 1 + rng.idx(2)) % 3,"algo":"sha256"}) };
+                o["sri"] = match rng.below(5) {
+                    0 | 1 => json!({"val":vi,"algo":"sha256","wrong":true}),
+                    2 | 3 => json!({"val":(vi + 1 + rng.idx(2)) % 3,"algo":"sha256"}),
+                    _ => json!({"val":(vi + 1 + rng.idx(2)) % 3,"algo":*rng.pick(&["sha512","sha1","xxh3"])}),
+                };
             }
         }
         st["chunks"] = json!(chunks);
@@ -718,9 +723,12 @@ pub fn gen_c19(rng: &mut Rng) -> Value {
             2 => o["size"] = json!(len.saturating_sub(1)),
             _ => {}
         }
-        match rng.below(5) {
+        match rng.below(7) {
             0 => o["sri"] = json!({"val":0,"algo":o.get("algo").and_then(|a| a.as_str()).unwrap_or("sha256")}),
             1 => o["sri"] = json!({"val":0,"algo":o.get("algo").and_then(|a| a.as_str()).unwrap_or("sha256"),"wrong":true}),
+            // a digest under some algorithm (often not the linker's) of the target's bytes / of other bytes
+            5 => o["sri"] = json!({"val":0,"algo":*rng.pick(&ALGOS)}),
+            6 => o["sri"] = json!({"val":1,"algo":*rng.pick(&ALGOS)}),
             _ => {}
         }
         if rng.chance(1, 3) {
@@ -945,7 +953,7 @@ pub fn gen_c12(rng: &mut Rng) -> Value {
                     0 => o["size"] = json!(len + 1 + (1 << 20)),
                     1 => o["sri"] = json!({"val":vi,"algo":"sha256","wrong":true}),
                     // a true digest of another algorithm than the writer's default, no algorithm chosen
-                    2 => o["sri"] = json!({"val":vi,"algo":*rng.pick(&["sha512","sha1","sha384","xxh3"])}),
+                    2 => o["sri"] = json!({"val": if rng.chance(2, 3) { vi } else { (vi + 1) % 3 },"algo":*rng.pick(&["sha512","sha1","sha384","xxh3"])}),
                     3 => o["sri"] = json!({"multi":[{"val":vi,"algo":"sha512"},{"val":vi,"algo":"sha1"}]}),
                     4 => o["size"] = json!(if len > 0 && rng.chance(1, 2) { len - 1 } else { len + 1 }),
                     _ => {
